@@ -399,6 +399,44 @@ def dispatch (op : OpSym) (a b : Desc) (zeroNum : Bool := false) : Option (M Res
     else reflected op b a
   else none
 
+/-! ### in-place forms `a op= b` (qube.py `__iadd__` … `__imod__`), expressed through `dispatch` -/
+
+/-- can the result of the direct form be stored in the target? the operand broadcasts INTO the target's leading shape
+    (`_require_broadcast_into`), the item shape stays the target's, an integer target takes no float result
+    ("operation returns non-integer result"), a Boolean target supports no in-place arithmetic -/
+def storable (a : Desc) (r : Res) : Bool :=
+  r.lead == a.shape && r.numer == a.numer && r.denom == a.denom && !(a.kind == .int && r.kind == .float) &&
+  a.cls != .boolean
+
+/-- documented limitations of the in-place methods: "in-place multiplication only works for a Matrix3" (so `/=`, which is
+    `*=` by the reciprocal, only works with a nonzero Python number, which is divided in directly), and `+= -= *=` of an
+    integer target refuse an operand that `is_int()` denies (a Boolean object holds bools) -/
+def inplaceLimited (op : OpSym) (a b : Desc) (zeroNum : Bool) : Bool :=
+  (a.cls == .matrix3 && op == .div && !(b.isNum && !zeroNum)) ||
+  (a.kind == .int && b.isQ && b.kind == .bool && (op == .add || op == .sub || op == .mul))
+
+/-- recorded defect KF-C04-10, modelled as the code behaves: a target holding a single Python value is REBOUND by the
+    number fast paths (`self._values_ += arg` on a Python int), so an integer target silently takes a float result -/
+def rebindsSingle (op : OpSym) (a b : Desc) : Bool :=
+  a.shape == [] && a.rank == 0 && a.kind == .int && b.kind == .float && b.shape == [] && b.rank == 0 &&
+  (match op with
+   | .add | .sub => b.isNum || b.src == .nd || b.src == .ma
+   | .mul => b.isNum
+   | .floordiv | .mod => true
+   | .div => false)
+
+/-- `a op= b`: the direct result when it is storable in the target (which keeps its class; a float target stays float),
+    a rejection otherwise. NOT a code-shaped model of the in-place methods: it states the property's requirement
+    "in-place = direct whenever the operand broadcasts into the target" on top of `dispatch`. -/
+def inplace (op : OpSym) (a b : Desc) (zeroNum : Bool := false) : Option (M Res) :=
+  match dispatch op a b zeroNum with
+  | some (.ok r) =>
+    if rebindsSingle op a b && a.cls != .boolean then some (.ok { r with cls := a.cls, kind := .float })
+    else if storable a r && !inplaceLimited op a b zeroNum then
+      some (.ok { r with cls := a.cls, kind := if a.kind == .float then .float else r.kind })
+    else some (.error .valueError)
+  | x => x
+
 /-! ### unary operators (qube.py:2830-2864, boolean.py:137-144, matrix.py:502) -/
 
 inductive UnOp | neg | abs | pos
